@@ -1,6 +1,8 @@
 package props
 
 import (
+	"net"
+	"strings"
 	"os"
 	"bytes"
 	"fmt"
@@ -27,6 +29,7 @@ type c09Sample struct {
 	Replies   int      `json:"replies"`
 	SockClose string   `json:"socket_closed_at"`
 	SimTime   string   `json:"simulated_time"`
+	Sockets   int      `json:"sockets_of_the_server,omitempty"`
 }
 
 func init() {
@@ -110,8 +113,18 @@ func runC09(t *testing.T, e *worlds.Env, tier string) (bool, any) {
 		routes := layer4.RouteList{layer4.VerifNewRoute(sets, []layer4.NextHandler{h})}
 		uw = e.NewUDPWorld(routes, timeout)
 		sample.Clients = nclients
+		twoSocks := tp.Prob(1, 5, "two-sockets")
+		if twoSocks {
+			uw.AddSocket() // a second listen address of the same server
+			sample.Sockets = 2
+		}
+		// clients on different links with the same link-local address and port: only the zone tells them apart
+		zoned := nclients >= 2 && tp.Prob(1, 6, "zoned-clients")
 		for i := 1; i <= nclients; i++ {
 			addr := worlds.UDPClientAddr(i)
+			if zoned && i <= 3 {
+				addr = &net.UDPAddr{IP: net.ParseIP("fe80::1"), Port: 546, Zone: fmt.Sprintf("eth%d", i)}
+			}
 			key := e.S.Seed*977 + uint64(i)
 			keys[addr.String()] = key
 			plan := &worlds.UDPClientPlan{ID: i, Addr: addr, Faults: faults}
@@ -147,7 +160,7 @@ func runC09(t *testing.T, e *worlds.Env, tier string) (bool, any) {
 				case 3:
 					delay = time.Duration(500+tp.Choose(3000, "gap-long")) * time.Millisecond
 				}
-				plan.Sends = append(plan.Sends, worlds.UDPSend{Data: d, Delay: delay})
+				plan.Sends = append(plan.Sends, worlds.UDPSend{Data: d, Delay: delay, ToSock2: twoSocks && tp.Prob(1, 2, "to-sock2")})
 			}
 			sample.Datagrams = append(sample.Datagrams, nd)
 			if slowAll || i == 1 {
@@ -212,11 +225,20 @@ func runC09(t *testing.T, e *worlds.Env, tier string) (bool, any) {
 			}
 			return
 		}
-		arr := uw.Sock.ArrivalsSnapshot()
-		sent := uw.Sock.SentSnapshot()
-		sample.Arrived = len(arr)
-		sample.Assocs = len(assocs)
-		sample.Replies = len(sent)
+		allAssocs := assocs
+		// one server, one or two sockets: each socket is judged on its own (its arrivals, the
+		// associations its loop started, the replies that left through it) - a datagram that
+		// arrived on one socket has no business in an association of the other
+		judge := func(sockName string, arr, sent []simnet.Dgram, gprefix string) {
+		var assocs []*worlds.AssocRec
+		for _, a := range allAssocs {
+			if strings.HasPrefix(a.G, gprefix) {
+				assocs = append(assocs, a)
+			}
+		}
+		sample.Arrived += len(arr)
+		sample.Assocs += len(assocs)
+		sample.Replies += len(sent)
 		// socket buffer truncates datagrams to 9000 bytes (udpBufPool size)
 		const sockBuf = 9000
 		perClient := map[string][]simnet.Dgram{}
@@ -428,10 +450,15 @@ func runC09(t *testing.T, e *worlds.Env, tier string) (bool, any) {
 					}
 				}
 				if allEndedBefore {
-					e.S.Fail("C09/dropped-after-end", "udprec", "datagram #%d of client %s arrived (step %d) after all of its earlier associations had ended, but no association received it", i, c, d.Step)
+					e.S.Fail("C09/dropped-after-end", "udprec", "datagram #%d of client %s arrived on %s (step %d) after all of its earlier associations had ended, but no association received it", i, c, sockName, d.Step)
 					return
 				}
 			}
+		}
+		}
+		judge("usock", uw.Sock.ArrivalsSnapshot(), uw.Sock.SentSnapshot(), "usrv.")
+		if uw.Sock2 != nil && len(e.S.Failures) == 0 {
+			judge("usock2", uw.Sock2.ArrivalsSnapshot(), uw.Sock2.SentSnapshot(), "usrv2.")
 		}
 	})
 	nontrivial := sample.Clients >= 2 || sample.Assocs >= 2
